@@ -278,6 +278,17 @@ Definition run_object_own (core invert : bool) (G H : hostg)
     (raw : list C03_Model.mapping) (tbl : list (option bytes * option bytes)) (script : list attr) : tok :=
   run_object (own_opts invert (mode_E G H) (SMember 0%N) None false) None (substrate invert G H) (template core false G H) raw tbl script.
 
+(** the identity SEPARATES the pattern components (premise of C04_comp_regenerates_partial / C04_bt_regenerates_partial, as a
+    boolean): two pattern atoms that lie in one component of the substrate lie in one component of the pattern *)
+Definition same_in (cs : list (list N)) (x y : N) : bool := existsb (fun c => mem x c && mem y c) cs.
+Definition same_compb (g : C06_Model.graph) (x y : N) : bool := same_in (comps g) x y.
+(** the components are computed once; only pattern atoms are looked at, so the substrate components are first cut down to them *)
+Definition id_separatingb (H P : C06_Model.graph) : bool :=
+  let ps := node_ids P in
+  let hc := filter (fun c => match c with [] => false | _ => true end) (map (filter (fun x => mem x ps)) (comps H)) in
+  let pc := comps P in
+  forallb (fun p => forallb (fun p' => implb (same_in hc p p') (same_in pc p p')) ps) ps.
+
 (** the matching stage of one ordinary case: [strat] as the reactor receives it; the raw matches computed with the verified
     enumerator through C06's call interface (as a set; only when [chk_raw]), the hypotheses of C04_in_results_engine_partial
     that are booleans, and the pruning of the implementation's raw list (in its order) with C11's model on the canonical codes *)
@@ -289,6 +300,7 @@ Definition run_matching (core invert : bool) (G H : hostg) (strat : sarg) (chk_r
       let host := tr_host (substrate invert G H) in
       let pat := tr_pat (pattern_of l) in
       L [tbool (forallb (fun p : N * mnode => 0 <=? m_hc (snd p)) (gnodes (pattern_of l)));
+         L [tnat (length (comps host)); tnat (length (comps pat)); tbool (id_separatingb host pat)];
          (if chk_raw then
             match api_engine (monos_on host pat) strat None false host pat with
             | Result r => L [tset tmapping r]
